@@ -130,6 +130,14 @@ DECODERS = {'self._try_decode_dict': '.decDict', 'self._try_decode_list': '.decL
             'try_utf8_decode': '.scalar'}
 
 
+def acc_name(b, ctor, what):
+    """`<name> = dict()` / `<name> = list()` as first of three statements -> name"""
+    if len(b) != 3 or not isinstance(b[0], ast.Assign) or len(b[0].targets) != 1 or \
+            not isinstance(b[0].targets[0], ast.Name) or ast.unparse(b[0].value) not in (ctor + '()', {'dict': '{}', 'list': '[]'}[ctor]):
+        raise ExtractError('%s: does not start with an empty %s accumulator' % (what, ctor))
+    return b[0].targets[0].id
+
+
 def call1(e, what):
     """f(x) -> (dotted f, unparse x)"""
     if not (isinstance(e, ast.Call) and len(e.args) == 1 and not e.keywords and dotted(e.func)):
@@ -150,8 +158,9 @@ def gen_message(src, consts):
     # ---- _try_decode_dict ------------------------------------------------------------------
     f = src.func('message.py', 'Message', '_try_decode_dict')
     b = body_of(f)
-    if len(b) != 3 or ast.unparse(b[0]) != 'result = dict()' or not isinstance(b[1], ast.For) or \
-            not is_return_of(b[2], 'result') or ast.unparse(b[1].target) != '(key, value)' or \
+    acc = acc_name(b, 'dict', '_try_decode_dict')      # the accumulator may be renamed freely
+    if not isinstance(b[1], ast.For) or \
+            not is_return_of(b[2], acc) or ast.unparse(b[1].target) != '(key, value)' or \
             ast.unparse(b[1].iter) != 'content.items()' or b[1].orelse:
         raise ExtractError('_try_decode_dict: unexpected shape')
     lb = [s for s in b[1].body if not is_logging(s)]
@@ -165,7 +174,7 @@ def gen_message(src, consts):
     dispatch = []
 
     def store(body, what):
-        if len(body) != 1 or not isinstance(body[0], ast.Assign) or ast.unparse(body[0].targets[0]) != 'result[key]':
+        if len(body) != 1 or not isinstance(body[0], ast.Assign) or ast.unparse(body[0].targets[0]) != '%s[key]' % acc:
             raise ExtractError('_try_decode_dict: %s arm does not assign result[key]' % what)
         fn, arg = call1(body[0].value, '_try_decode_dict')
         if arg != 'value' or fn not in DECODERS:
@@ -186,13 +195,14 @@ def gen_message(src, consts):
     # ---- _try_decode_list ------------------------------------------------------------------
     f = src.func('message.py', 'Message', '_try_decode_list')
     b = body_of(f)
-    if len(b) != 3 or ast.unparse(b[0]) != 'result = list()' or not isinstance(b[1], ast.For) or \
-            not is_return_of(b[2], 'result') or ast.unparse(b[1].target) != 'value' or \
+    acc = acc_name(b, 'list', '_try_decode_list')
+    if not isinstance(b[1], ast.For) or \
+            not is_return_of(b[2], acc) or ast.unparse(b[1].target) != 'value' or \
             ast.unparse(b[1].iter) != 'content' or b[1].orelse:
         raise ExtractError('_try_decode_list: unexpected shape')
     lb = [s for s in b[1].body if not is_logging(s)]
     if len(lb) != 1 or not isinstance(lb[0], ast.Expr) or not isinstance(lb[0].value, ast.Call) or \
-            dotted(lb[0].value.func) != 'result.append' or len(lb[0].value.args) != 1:
+            dotted(lb[0].value.func) != acc + '.append' or len(lb[0].value.args) != 1:
         raise ExtractError('_try_decode_list: loop body is not result.append(...)')
     fn, arg = call1(lb[0].value.args[0], '_try_decode_list')
     if arg != 'value' or fn not in DECODERS:
